@@ -187,6 +187,10 @@ SQL_JOIN = (
     ("join", ("Y", ("chain", ("Y",)), ("proj", ("a",))), None, False),
     ("join", ("K", ("dedup",)), None, False),
     ("join", ("K", S((R("d"), ASC)), ("slice", 0, 2)), None, False),
+    ("join", ("K",), ("or", P_D_GT_A, P_FALSE), False),
+    ("join", ("K",), ("or", ("only", "iteration", P_A_GT_1), P_TRUE), False),
+    ("join", ("K",), None, False, ("a",)),
+    ("join", ("self", ("sel", P_A_GT_1), ("calc", "y", A_MINUS_C)), None, False),
 )
 SQL_OTHER = (("dedup",), ("mat", "m1"))
 SQL_FULL = SQL_CALC + SQL_PROJ + SQL_SEL + SQL_SORT + SQL_SLICE + SQL_CHAIN + SQL_JOIN + SQL_OTHER
@@ -295,6 +299,8 @@ def multi_world():
         LeafSpec("E1", "e1", ABC, (), min_rows=0, max_rows=0),
         LeafSpec("D1", "e1", ABC, (), special="doomed"),
         LeafSpec("DS", "s", ABC, (), special="doomed"),
+        LeafSpec("EL", "s", ABC, (), min_rows=0, max_rows=3),
+        LeafSpec("EL1", "e1", ABC, (), min_rows=0, max_rows=3),
         LeafSpec("I1", "e1", (), ((),), special="identity"),
         LeafSpec("IS", "s", (), ((),), special="identity"),
     )
@@ -360,6 +366,9 @@ MULTI_JOIN = (
     pe(("join", ("K1",), None, False), "e2", True, False, False),
     pe(("join", ("K",), None, False), "e1", True, False, False),
     pe(("join", ("K",), None, False), "e1", True, True, False),
+    ("join", ("K",), None, False, ("a",)),
+    pe(("join", ("K",), None, False, ("a",)), "s", True, True, False),
+    ("join", ("K",), ("or", ("only", "iteration", P_A_GT_1), P_TRUE), False),
 )
 MULTI_FULL = MULTI_PLAIN + MULTI_PE + MULTI_JOIN
 
